@@ -109,6 +109,12 @@ func (c *Catalog) tagsFromTagsDirective(d *directive.Directive) ([]*Tag, *jerr.J
 	return tt, nil
 }
 
+// CheckTags checks that a Tags directive is well-formed and names declared tags.
+func (c *Catalog) CheckTags(d *directive.Directive) *jerr.JApiError {
+	_, je := c.tagsFromTagsDirective(d)
+	return je
+}
+
 func checkTagsDirective(d *directive.Directive) *jerr.JApiError {
 	if d.Annotation != "" {
 		return d.KeywordError(jerr.AnnotationIsForbiddenForTheDirective)
